@@ -110,6 +110,17 @@ func init() {
 				}
 			}
 		}
+		// every pair (and pair around a letter) of "interesting units": invalid UTF-8 bytes, U+FFFD itself,
+		// quotes, backslash, controls, non-printable Latin-1, astral code points, keyword-ish letters
+		units := []string{"\x80", "\xff", "\xc3", "\xe2\x82", "\xf0\x9f", "\ufffd", "\u00a0", "\u0080", "\u00ad", "\u00e9", "\u2028", "\U0001F600", "\U0010FFFF",
+			"'", "\"", "`", "\\", "\n", "\r", "\t", "\x00", "\x7f", "\x1b", "a", "Z", "_", "0", " ", "-", "/", "*", "#", "?", "\a", "\v", "x41", "u0041", "select", "NULL"}
+		for _, u1 := range units {
+			for _, u2 := range units {
+				emit(u1 + u2)
+				emit(u1 + "a" + u2)
+				emit("'" + u1 + "\"" + u2)
+			}
+		}
 		if _, err := src.each(emit); err != nil {
 			return err
 		}
